@@ -19,6 +19,7 @@ driver_of() {
     C04) echo writer ;;
     C13|C14) echo text ;;
     C15) echo cxx ;;
+    C17) echo footprint ;;
     *) echo "" ;;
   esac
 }
@@ -75,10 +76,38 @@ run_cxx() {
   VERIF_VARIANT=zero VERIF_CXX_PREV="pattern build: $(tail -1 $B/pattern.out | tr -d '"'); valgrind pass: $(tail -1 $B/valgrind.out | tr -d '"') with no uninitialised-value report" exec $B/cxx_zero --prop C15 --tier $tier
 }
 
+# C17: the library as shared objects per compiler / optimisation level; the harness dlopens them
+run_footprint() {
+  local tier=$1 B=$V/build/footprint
+  mkdir -p $B $V/replays/C17
+  local libs=""
+  for cc in gcc clang; do for opt in O0 O2 Os; do
+    $cc -std=c99 -$opt -g -fPIC -shared -DBINSON_PARSER_WITH_PRINT -I$REPO/include $REPO/src/binson_parser.c $REPO/src/binson_writer.c -Wl,-z,relro,-z,now -o $B/libbinson_ut_${cc}_${opt}.so || { echo "HARNESS-ERROR: build failed"; exit 2; }
+    libs="$libs $B/libbinson_ut_${cc}_${opt}.so"
+  done; done
+  gcc -std=c99 -O2 -g -fPIC -shared -I$REPO/include $REPO/src/binson_parser.c $REPO/src/binson_writer.c -Wl,-z,relro,-z,now -o $B/libbinson_ut_gcc_O2_noprint.so || { echo "HARNESS-ERROR: build failed"; exit 2; }
+  libs="$libs $B/libbinson_ut_gcc_O2_noprint.so"
+  gcc -std=gnu11 -O1 -g -Wall -Wno-unused-function -Wno-format-truncation -DBINSON_PARSER_WITH_PRINT -I$REPO/include -DVF_ROOT=\"$V\" $V/checks/footprint.c -o $B/footprint -ldl -lpthread || { echo "HARNESS-ERROR: build failed"; exit 2; }
+  local cg
+  cg=$(python3 $V/tools/callgraph.py $REPO $B 2> $B/callgraph.err); local cgrc=$?
+  if [ $cgrc -ne 0 ]; then
+    cp $B/callgraph_violations.txt $V/replays/C17/callgraph_violations.replay 2>/dev/null
+    echo "VIOLATION property=C17 replay=$V/replays/C17/callgraph_violations.replay"
+    echo "  signature: footprint:callgraph"; sed 's/^/  /' $B/callgraph.err | head -10
+    VERIF_CALLGRAPH_JSON="$cg" $B/footprint --prop C17 --tier $tier -- $libs | grep -v "^footprint C17"
+    exit 1
+  fi
+  VERIF_CALLGRAPH_JSON="$cg" exec $B/footprint --prop C17 --tier $tier -- $libs
+}
+
 if [ "${1:-}" = replay ]; then
   f=${2:?replay file}
   drv=$(sed -n 's/^check: //p' "$f" | head -1)
   prop=$(sed -n 's/^property: //p' "$f" | head -1)
+  if [ "$drv" = footprint ]; then
+    # footprint findings are properties of a build configuration, not of an input: re-run the check itself
+    echo "replay: re-running the C17 check (its violations are per build configuration)"; exec $V/run.sh C17 quick
+  fi
   if [ "$drv" = cxx ]; then
     build_cxx zero || { echo "HARNESS-ERROR: build failed"; exit 2; }
     $V/build/cxx/cxx_zero --prop C15 --replay "$f"; rc=$?
@@ -99,5 +128,6 @@ drv=$(driver_of $prop)
 [ -n "$drv" ] || { echo "HARNESS-ERROR: no check for $prop"; exit 2; }
 mkdir -p $V/evidence
 if [ "$drv" = cxx ]; then run_cxx $tier; fi
+if [ "$drv" = footprint ]; then run_footprint $tier; fi
 build $drv || { echo "HARNESS-ERROR: build failed"; exit 2; }
 exec $V/build/$drv/$drv --prop $prop --tier $tier
